@@ -89,6 +89,11 @@ TW('C03', 'twin-gate-where-and-flipped-cmp', DS, "      return lax.cond(\n      
 TW('C03', 'twin-sharded-flipped-cmp', DS, "        jnp.isnan(errors), errors >= inverse_failure_threshold)\n    # TODO(rohananil)", "        jnp.isnan(errors), inverse_failure_threshold <= errors)\n    # TODO(rohananil)")
 TW('C03', 'twin-sharded-select', DS, "    new_conditional_preconditioners = jnp.where(\n        predicate, global_stats.preconditioners, new_preconditioners)", "    old_preconditioners = global_stats.preconditioners\n    new_conditional_preconditioners = lax.select(\n        predicate, old_preconditioners, new_preconditioners)")
 
+M('C03', 'gate-compares-in-float64', DS, "    def _skip(error):\n      condition = jnp.logical_or(\n          jnp.isnan(error), error >= inverse_failure_threshold)\n      return condition.astype(error.dtype)\n\n    def _select_preconditioner(error, new_p, old_p):\n      return lax.cond(",
+  "    def _skip(error):\n      error = error.astype(_MAT_INV_PTH_ROOT_DTYPE)\n      condition = jnp.logical_or(\n          jnp.isnan(error), error >= inverse_failure_threshold)\n      return condition.astype(error.dtype)\n\n    def _select_preconditioner(error, new_p, old_p):\n      return lax.cond(", count=3)
+M('C03', 'graft-multiplier-rsqrt-tiny-eps', DS, "      multiplier = (grafting_update_norm / (precond_grad_norm + _EPSILON))", "      multiplier = grafting_update_norm * lax.rsqrt(jnp.sum(jnp.square(precond_grad)) + _EPSILON**2)")
+TW('C03', 'twin-gate-cast-float32', DS, "    def _skip(error):\n      condition = jnp.logical_or(\n          jnp.isnan(error), error >= inverse_failure_threshold)\n      return condition.astype(error.dtype)\n\n    def _select_preconditioner(error, new_p, old_p):\n      return lax.cond(",
+  "    def _skip(error):\n      error = error.astype(jnp.float32)\n      condition = jnp.logical_or(\n          jnp.isnan(error), error >= inverse_failure_threshold)\n      return condition.astype(error.dtype)\n\n    def _select_preconditioner(error, new_p, old_p):\n      return lax.cond(", count=3)
 # ------------------------------------------------------------------ C04
 M('C04', 'ds-count-plus-2', DS, "    new_state = ShampooState(count=state.count + 1, stats=new_stats)", "    new_state = ShampooState(count=state.count + 2, stats=new_stats)")
 M('C04', 'sharded-count-not-advanced', DS, "        count=state.count + 1,\n        stats=ShardedShampooStats(new_global_stats, new_local_stats))", "        count=state.count,\n        stats=ShardedShampooStats(new_global_stats, new_local_stats))")
@@ -121,6 +126,12 @@ TW('C04', 'twin-jnp-mod', DS, "        perform_step = step % statistics_compute_
 TW('C04', 'twin-count-commuted', DS, "    new_state = ShampooState(count=state.count + 1, stats=new_stats)", "    next_count = 1 + state.count\n    new_state = ShampooState(stats=new_stats, count=next_count)")
 TW('C04', 'twin-warmup-flipped', DS, "    run_shampoo = (step >= start_preconditioning_step).astype(", "    run_shampoo = (start_preconditioning_step <= step).astype(")
 
+M(['C01', 'C02'], 'eigh-dispatch-drops-relative-epsilon', DS, "                                        error_tolerance, precision,\n                                        relative_matrix_epsilon, padding_start,\n                                        prev)",
+  "                                        error_tolerance, precision,\n                                        padding_start=padding_start,\n                                        prev=prev)")
+M(['C01', 'C02'], 'factory-partial-drops-relative-epsilon', DS, "      precision=precision,\n      relative_matrix_epsilon=relative_matrix_epsilon,\n      lobpcg_topk_precondition", "      precision=precision,\n      lobpcg_topk_precondition")
+M(['C01', 'C02'], 'factory-partial-constant-ridge', DS, "      ridge_epsilon=matrix_epsilon,\n      precision=precision,", "      ridge_epsilon=1e-6,\n      precision=precision,")
+TW(['C01', 'C02'], 'twin-eigh-dispatch-keywords', DS, "                                        error_tolerance, precision,\n                                        relative_matrix_epsilon, padding_start,\n                                        prev)",
+  "                                        error_tolerance, precision=precision,\n                                        prev=prev, padding_start=padding_start,\n                                        relative_matrix_epsilon=relative_matrix_epsilon)")
 # ------------------------------------------------------------------ C02
 M('C02', 'momentum-wrong-buffer', DS, "        state.momentum.to_float() * beta1 + w * shampoo_update_with_wd)", "        state.diagonal_momentum.to_float() * beta1 + w * shampoo_update_with_wd)")
 M('C02', 'wd-before-graft-rescale', DS, "    shampoo_update = precond_grad * multiplier\n", "    shampoo_update = (precond_grad + weight_decay * param) * multiplier\n")
@@ -266,7 +277,9 @@ M('C10', 'unpack-tail-row', DS, "  tail = preconditioner[1, -1]\n", "  tail = pr
 M('C10', 'unpack-order-swapped', DS, "  return eigvecs, inverted_eigvals, const, has_zeros", "  return eigvecs, const, inverted_eigvals, has_zeros")
 M('C10', 'pack-wrapper-eigs-in-deflated', DS, "  return _fd_low_rank_pack(eigvecs, jnp.zeros_like(eigvals), eigvals, const,", "  return _fd_low_rank_pack(eigvecs, eigvals, jnp.zeros_like(eigvals), const,")
 M('C10', 'pack-dtype-pinned', DS, "  precond = jnp.zeros((d, rank + 2))\n", "  precond = jnp.zeros((d, rank + 2), dtype=jnp.float32)\n")
-M('C10', 'precond-dim-strict', DS, "  if compressed_size >= dim:\n    return dim", "  if compressed_size > dim:\n    return dim")
+# behaviour-preserving: at compressed_size == dim both spellings return dim (found when the predicate rule became semantic)
+TW('C10', 'twin-precond-dim-strict', DS, "  if compressed_size >= dim:\n    return dim", "  if compressed_size > dim:\n    return dim")
+M('C10', 'precond-dim-width-off-by-one', DS, "  compressed_size = abs(compression_rank) + 2\n  if compressed_size >= dim:", "  compressed_size = abs(compression_rank) + 1\n  if compressed_size >= dim:")
 M('C10', 'should-compress-le', DS, "  return compression_rank != 0 and abs(compression_rank) + 2 < dim", "  return compression_rank != 0 and abs(compression_rank) + 2 <= dim")
 TW('C10', 'twin-unused-abs-rank-local', DS, "      should_compress = _should_compress(compression_rank, padding_start)\n\n      if frequent_directions:", "      compression_rank_ = abs(compression_rank)\n      should_compress = _should_compress(compression_rank, padding_start)\n\n      if frequent_directions:")
 M('C10', 'lowroot-gets-abs-rank', DS, "            _low_rank_root,\n            compression_rank=compression_rank,", "            _low_rank_root,\n            compression_rank=abs(compression_rank),")
